@@ -2,7 +2,7 @@
    Statements only; proofs in Proofs/Sign.v.  sign (Model/Sign.v) is the model of Envelope.Sign of
    both formats on an abstract request (signer, encoders and go-cose's header validation are oracles
    carried by the request).  ValidReq / AttrsOK are the clauses of the property. *)
-From NCG Require Import Model.Sign Proofs.Header Proofs.Sign.
+From NCG Require Import Model.Sign Proofs.Header Proofs.Sign Proofs.SignComplete.
 
 Theorem C16_gate : forall sigfrom selfsig q h, sign sigfrom selfsig q = SOk h ->
   ValidReq sigfrom selfsig q /\
@@ -44,3 +44,10 @@ Theorem C16_model_success_passes_checker : forall sf ss q h, (q_fmt q = 0 \/ q_f
   sign sf ss q = SOk h -> valid_req_b sf ss q = true.
 Proof. exact sign_ok_valid_req_b. Qed.
 Print Assumptions C16_model_success_passes_checker.
+
+(* the gate is exact: Sign produces an envelope for a request if and only if the request is valid
+   (and the signer returned a non-empty signature) *)
+Theorem C16_exact : forall sigfrom selfsig q, (q_fmt q = 0 \/ q_fmt q = 1)%Z -> q_sig q <> 0%Z ->
+  ((exists h, sign sigfrom selfsig q = SOk h) <-> ValidReq sigfrom selfsig q).
+Proof. exact sign_exact. Qed.
+Print Assumptions C16_exact.
